@@ -31,12 +31,17 @@ def op_of(fname):
     return None
 
 
+_OBJS = {}
+
+
 def objects(ctx):
     out = []
     for isa in asmabi.ISAS:
         for fl in asmabi.FLAVOURS:
             try:
-                out.append(asmabi.Obj(isa, fl))
+                if (isa, fl) not in _OBJS:
+                    _OBJS[(isa, fl)] = asmabi.Obj(isa, fl)     # one process = one tree state
+                out.append(_OBJS[(isa, fl)])
             except FileNotFoundError as e:
                 raise MissingAnchor("assembly file %s" % e)
     return out
